@@ -826,14 +826,14 @@ func propC15(r *Run, w *World) {
 			constructOnly := map[string]bool{"expiration": true, "lookupFn": true}
 			for i := 0; i < st.NumFields(); i++ {
 				fv := st.Field(i)
-				if fv.Name() == "mutex" {
+				if fieldName(fv) == "mutex" {
 					continue
 				}
 				for _, a := range w.FieldAccesses(fv) {
 					if a.Kind == "valarg" || a.Kind == "alias" || a.Kind == "returned" || a.Kind == "reslice" {
 						continue
 					}
-					key := fmt.Sprintf("stringCache.%s %s in %s", fv.Name(), a.Kind, fnName(a.Fn))
+					key := fmt.Sprintf("stringCache.%s %s in %s", fieldName(fv), a.Kind, fnName(a.Fn))
 					held := li.Held(a.Instr)[class]
 					isCtor := a.Fn.Name() == "NewUserCache" || a.Fn.Name() == "NewGroupCache"
 					switch {
@@ -841,17 +841,17 @@ func propC15(r *Run, w *World) {
 						r.OK(key, a.Instr.Pos(), "mutex held")
 					case isCtor:
 						r.OK(key, a.Instr.Pos(), "constructor: object not yet shared")
-					case constructOnly[fv.Name()] && a.Kind == "load":
+					case constructOnly[fieldName(fv)] && a.Kind == "load":
 						// only constructors may write it
 						r.OK(key, a.Instr.Pos(), "immutable after construction")
 					default:
-						r.Fail(key, a.Instr.Pos(), fmt.Sprintf("stringCache.%s is accessed (%s) without the cache mutex", fv.Name(), a.Kind))
+						r.Fail(key, a.Instr.Pos(), fmt.Sprintf("stringCache.%s is accessed (%s) without the cache mutex", fieldName(fv), a.Kind))
 					}
 				}
-				if constructOnly[fv.Name()] {
+				if constructOnly[fieldName(fv)] {
 					for _, a := range Writes(w.FieldAccesses(fv)) {
 						isCtor := a.Fn.Name() == "NewUserCache" || a.Fn.Name() == "NewGroupCache"
-						r.Check(isCtor, "stringCache."+fv.Name()+" written in "+fnName(a.Fn), a.Instr.Pos(), "", "stringCache."+fv.Name()+" is written after construction")
+						r.Check(isCtor, "stringCache."+fieldName(fv)+" written in "+fnName(a.Fn), a.Instr.Pos(), "", "stringCache."+fieldName(fv)+" is written after construction")
 					}
 				}
 			}
